@@ -159,7 +159,7 @@ func (c02) ID() string     { return "C02" }
 func (c02) Level() string  { return "exploration" }
 func (c02) QuickRuns() int { return 300000 }
 func (c02) Rule() string {
-	return "seeded runs of every variant where each probed TTL is answered in a randomly drawn form of the device-behaviour catalogue (28-byte/full/RFC 4884 quotes, outer IP options, rewritten quoted TTL/checksum/TOS, NAT-rewritten quoted source in relaxed mode, echo reply, unreachable codes, SYN-ACK/RST/RST-ACK, SACK blocks for ISNs incl. wrap-around) with loss, duplication, reordering of other replies and arrival times over the whole window; non-trivial = at least one genuine reply was scheduled inside the listening window; distinct = distinct (variant, per-TTL form) shapes"
+	return "seeded runs of every variant where each probed TTL is answered in a randomly drawn form of the device-behaviour catalogue (28-byte/full/RFC 4884 quotes, outer IP options, rewritten quoted TTL/checksum/TOS, NAT-rewritten quoted source in relaxed mode, echo reply, unreachable codes, SYN-ACK/RST/RST-ACK, SACK blocks for ISNs incl. wrap-around) with loss, duplication, reordering of other replies and arrival times over the whole window, in 10% of the runs with a write that blocks or returns late; non-trivial = at least one genuine reply was scheduled inside the listening window; distinct = distinct (variant, per-TTL form) shapes"
 }
 func (c02) Assumptions() []string {
 	return []string{"serial engine (TCP SYN): only histories in which every reply arrives inside its own probe's window (the property's restriction) are generated", "a reply counts as inside the window when it arrives at least one poll interval before the engine deadline computed from the request parameters"}
@@ -187,6 +187,11 @@ func (c02) Gen(rng *rand.Rand, tier string, i int) *sim.Scenario {
 	}
 	sc := scenarioFor("C02", rng, []*wireRun{wr})
 	applyWrapBases(rng, sc)
+	if chance(rng, 0.1) {
+		// a slow sender: replies that arrive while a write is blocked (or has not returned) still count
+		n := wr.call.MaxTTL - wr.call.MinTTL + 1
+		sc.Faults = append(sc.Faults, sim.Fault{Actor: "c0", Op: "write", K: pick(rng, 1, between(rng, 1, n)), Class: pick(rng, "stall", "stallret"), Us: int64(pick(rng, 200, 5000, 40000, 150000))})
+	}
 	return sc
 }
 
@@ -238,12 +243,31 @@ func (c02) Check(out *sim.Outcome, ri *RunInfo) []Violation {
 			if pr == nil || len(p.Ep) <= v.Ep.Idx {
 				continue
 			}
-			if p.At > engineDeadline(v, pr)-poll {
+			dl := engineDeadline(v, pr)
+			if p.At > dl-poll {
 				ri.probe("reply-in-last-poll-or-late")
+				continue
+			}
+			// fault relaxation, narrow: a write of this endpoint that was still blocked (or had not
+			// returned to its caller) during the last poll interval of this reply's window may have kept
+			// the engine from reading at all; such a reply is not demanded
+			cut := false
+			for _, q := range v.Ep.Probes {
+				if q.RetAt > q.CallAt && q.CallAt < dl && q.RetAt > dl-poll {
+					cut = true
+				}
+			}
+			if cut {
+				ri.probe("window-cut-short-by-stalled-write")
 				continue
 			}
 			ri.NonTrivial = true
 			ri.probe("form." + p.Origin.Form)
+			for _, q := range v.Ep.Probes {
+				if q.RetAt > q.RelAt && q.RelAt <= p.At && p.At < q.RetAt {
+					ri.probe("reply-arrived-during-blocked-write")
+				}
+			}
 			pe := p.Ep[v.Ep.Idx]
 			if !pe.Read {
 				why := "never returned by Read"
